@@ -4,7 +4,7 @@ from __future__ import annotations
 import ast
 
 from ..facts import call_is, strip
-from ..model import norm
+from ..model import AnalysisError, norm
 from ..terms import is_const, show, subterms, summarize
 
 AC = "msmart.device.AC.device.AirConditioner"
@@ -87,6 +87,14 @@ def apply_chains(ctx, rule: str):
                     s_ok = vv == ("param", st.params[1]) or (vv[0] == "ite" and call_is(strip(vv[1]), "isinstance") and call_is(strip(vv[2]), "int") and strip(vv[3]) == ("param", st.params[1]))
             ctx.ob(rule, f"{AC}.{prop}", s_ok, f"setter `{prop}` stores the given value in self.{attr}", func=f"{AC}.{prop}", file=ac.module.rel, construct=f"{prop}.setter",
                    fail=f"the `{prop}` setter does not store its argument in self.{attr}")
+            # ... and in no other field of the requested state: a setter that also resets a sibling setting makes two requested states send one body
+            if st is not None:
+                chain_attrs = {a_ for a_, _c, _d in CHAINS.values()}
+                others = sorted({k.split(".", 1)[1] for _pc, _t, _n, rst in ss.returns for k, v_ in rst.env.items()
+                                 if k.startswith(st.params[0] + ".") and k.split(".", 1)[1] in chain_attrs and k.split(".", 1)[1] != attr
+                                 and strip(v_) != ("attr", ("param", st.params[0]), k.split(".", 1)[1])})
+                ctx.ob(rule, f"{AC}.{prop}", not others, f"setter `{prop}` leaves the other requested settings alone", func=f"{AC}.{prop}", file=ac.module.rel,
+                       construct=f"{prop}.setter", fail=f"the `{prop}` setter also writes self.{', self.'.join(others)}: a state requested with both settings goes out as another state")
             if isinstance(cattr, tuple):
                 a = stmt_state.env.get(f"{cmd_key}.{cattr[0]}") if cmd_key else None
                 b = stmt_state.env.get(f"{cmd_key}.{cattr[1]}") if cmd_key else None
@@ -105,3 +113,46 @@ def apply_chains(ctx, rule: str):
         od_ok = (not uses_local and not od) or len(od) == 1 and len(od[0].body) == 1 and isinstance(od[0].body[0], ast.Return) and \
             norm(od[0].body[0].value) == f"{od[0].args.args[0].arg} if {od[0].args.args[0].arg} is not None else {od[0].args.args[1].arg}"
         ctx.ob(rule, ap.qual, od_ok, "or_default(v, d) returns v unless v is None", func=ap.qual, file=ap.module.rel, construct="or_default", fail="or_default no longer passes known values through unchanged")
+
+
+def transparent_deprecated(ctx, rule: str):
+    """`@deprecated(..)` aliases (eco_mode, turbo_mode, ...) are the setting itself under an old name: the wrapper the decorator installs calls
+    the wrapped function with the caller's arguments on every path and returns what it returned - a wrapper that forwards only the first
+    call, or drops the return value while it warns, makes the alias read None / ignore assignments."""
+    import ast
+    from ..absint import EventAnalysis, run_events
+    from ..model import FuncInfo, norm
+    prog = ctx.prog
+    dep = prog.funcs.get("msmart.utils.deprecated")
+    if dep is None:
+        return
+    ctx.fn(dep.qual)
+    # the innermost nested function: the one that receives (*args, **kwargs)
+    inner = [n for n in ast.walk(dep.node) if isinstance(n, (ast.FunctionDef, ast.AsyncFunctionDef)) and n is not dep.node and n.args.vararg is not None and n.args.kwarg is not None]
+    if len(inner) != 1:
+        raise AnalysisError(f"{dep.qual}: the wrapper taking (*args, **kwargs) was not found")
+    w = inner[0]
+    outer = next((n for n in ast.walk(dep.node) if isinstance(n, (ast.FunctionDef, ast.AsyncFunctionDef)) and n is not dep.node and w in ast.walk(n) and n is not w), None)
+    fname = outer.args.args[0].arg if outer is not None and outer.args.args else None
+
+    def fwd(c):
+        return isinstance(c, ast.Call) and isinstance(c.func, ast.Name) and c.func.id == fname and len(c.args) == 1 and isinstance(c.args[0], ast.Starred) \
+            and isinstance(c.args[0].value, ast.Name) and c.args[0].value.id == w.args.vararg.arg and len(c.keywords) == 1 and c.keywords[0].arg is None \
+            and isinstance(c.keywords[0].value, ast.Name) and c.keywords[0].value.id == w.args.kwarg.arg
+    wi = FuncInfo(name=w.name, qual=f"{dep.qual}.<locals>.{w.name}", module=dep.module, node=w, cls=None, kind="function")
+
+    def on_stmt(node, st):
+        if isinstance(node, (ast.If, ast.While, ast.For, ast.Try, ast.With)):
+            return []
+        return ["forwarded"] if any(fwd(c) for c in ast.walk(node)) else []
+    ea = EventAnalysis(must=True, on_stmt=on_stmt)
+    comp = run_events(prog, wi, ea)
+    held = {t.id for a in ast.walk(w) if isinstance(a, ast.Assign) and fwd(a.value) for t in a.targets if isinstance(t, ast.Name)}
+    ok = bool(comp.returns) and not comp.normal
+    for st, node in comp.returns:
+        v = getattr(node, "value", None) if node is not None else None
+        ok = ok and node is not None and "forwarded" in st and (fwd(v) or (isinstance(v, ast.Name) and v.id in held))
+    ctx.ob(rule, dep.qual, ok, "the deprecated-alias wrapper forwards every call and returns the wrapped function's result", func=dep.qual, file=dep.module.rel,
+           construct="return func(*args, **kwargs)",
+           fail="the @deprecated wrapper does not forward every call / return the result on every path: a deprecated alias (eco_mode, turbo_mode, sleep_mode, "
+                "freeze_protection_mode) reads None or ignores an assignment")
